@@ -54,6 +54,8 @@ class Prog:
                 n = {"none": 0, "M": 1, "MR": 1, "MRM": 2}[h]
                 bits = [next(it) for _ in range(n)]
                 chars.append(outcome_of(h, bits))
+            if key is None:
+                continue                  # measurements of an untracked qubit: consumed, not recorded
             s = "?" if "?" in chars else "".join(chars)
             res.setdefault(key, {})
             res[key][s] = res[key].get(s, 0) + 1
@@ -110,6 +112,18 @@ def programs(prep):
     for h in HIST:
         body, _ = hist_stmts("c", h, prep)
         progs.append(Prog("borrow-qubit:%s" % h, pq + "function main() -> void { %squbit c; %s Pq p = new Pq(c); p = null; echo(\"e\"); }" % (pad, body), [("Pq.q", [h])], 1))
+    # a handle that outlives the object owning the qubit: the slot is released, then measured through the stale handle, and only then
+    # re-used by a tracked declaration with its own history (the predecessor's last act on the slot happens AFTER its release)
+    leak = "class Lk { public qubit q; public constructor() -> Lk = default; public function out() -> qubit { return this.q; } }\nfunction mk() -> qubit { Lk t = new Lk(); return t.out(); }\n"
+    for h0, h1 in itertools.product(["M", "MRM"], HIST):
+        s0, _ = hist_stmts("s", h0, prep)
+        b1, _ = hist_stmts("q", h1, prep)
+        progs.append(Prog("stale-handle-then-tracked:%s,%s" % (h0, h1), leak + "function main() -> void { %squbit s = mk(); %s @tracked qubit q; %s echo(\"e\"); }" % (pad, s0, b1),
+                          [(None, [h0]), ("qubit q", [h1])], 1))
+        g1, _ = hist_stmts("this.q", h1, prep)
+        clsT = "class T { @tracked public qubit q; public constructor() -> T = default; public function go() -> void { %s } }\n" % g1
+        progs.append(Prog("stale-handle-then-tracked-field:%s,%s" % (h0, h1), leak + clsT + "function main() -> void { %squbit s = mk(); %s T t = new T(); t.go(); echo(\"e\"); }" % (pad, s0),
+                          [(None, [h0]), ("T.q", [h1])], 1))
     progs.append(Prog("array-measure-all", "function main() -> void { %s@tracked qubit[2] r; %s(r[0]); %s(r[1]); measure r; }" % (pad, prep or "z", prep or "z"), [("qubit[] r", ["M", "M"])]))
     progs.append(Prog("untracked", "function main() -> void { qubit q; measure q; echo(\"e\"); }", [], 1))
     return progs
@@ -258,7 +272,7 @@ def main(tier):
                 # all measurements return 1: wrap expected()
                 base = p.expected
                 p.expected = (lambda b: (lambda outs: b([1] * len(outs))))(base)
-        sel = ps if tier == "thorough" else [p for p in ps if p.name.split(":")[0] in ("main", "for2", "helper2", "field-overwrite", "field-null", "two-sites", "array-measure-all", "block", "untracked", "field-reuse", "local-after-release", "borrow-array-after", "borrow-qubit") or p.name.startswith("array:M")]
+        sel = ps if tier == "thorough" else [p for p in ps if p.name.split(":")[0] in ("main", "for2", "helper2", "field-overwrite", "field-null", "two-sites", "array-measure-all", "block", "untracked", "field-reuse", "local-after-release", "borrow-array-after", "borrow-qubit", "stale-handle-then-tracked", "stale-handle-then-tracked-field") or p.name.startswith("array:M")]
         modes = [("none", None, None)] + [("flag", n, None) for n in (1, 2, 3)] + [("ann", None, n) for n in (1, 2, 3)] + [("both-eq", 2, 2), ("both-diff", 3, 2), ("both-diff", 1, 3), ("both-diff", 2, 1)]
         echos = [None, "auto", "all", "none"]
         for p in sel:
